@@ -633,8 +633,25 @@ class C07(Check):
             common.log("C07: managed threads did not unwind: %s" % leaked)
         self.stats["runs"] += 1; self.stats["steps"] += ctl.steps; self.stats[status] += 1
         if status == "budget":
-            raise Infra("step budget exceeded (%d steps)" % ctl.steps)
+            # a run that does not end is the harness's fault (exit 2) — unless the model, asked about the same trace, says that
+            # the code has left the protocol: then the code keeps taking steps the protocol does not have (a runaway)
+            at = self.budget_divergence(case, obs)
+            if at is None: raise Infra("step budget exceeded (%d steps)" % ctl.steps)
+            obs["runaway"] = at
+            obs["raw"] = obs["raw"][:at[0] + 40]
         return obs
+
+    def budget_divergence(self, case, obs):
+        try:
+            if self._own_driver is None: self._own_driver = common.Driver(self.driver)
+            req = self.model_request2(case, obs)
+            resp = self._own_driver.ask(req)
+        except Exception:
+            return None
+        if resp.get("ok") or "error" in resp: return None
+        n = resp.get("at")
+        if not isinstance(n, int) or n > 2000: return None         # only a divergence EARLY in the run explains a runaway
+        return [n, str(resp.get("model_site"))[:200]]
 
     def _at_action(self, key):
         """is a thread parked at `key` about to perform something the model knows as an action?"""
@@ -1036,6 +1053,8 @@ class C07(Check):
         return None
 
     def oracle_threads(self, case, obs):
+        if obs.get("runaway"):
+            return "the run does not end: the code keeps taking steps the hand-off protocol does not have"
         if obs["thread_errors"]:
             n, e = sorted(obs["thread_errors"].items())[0]
             return "exception left thread %s: %s" % (n, e.split(":")[0])
